@@ -137,4 +137,16 @@ Proof.
   - rewrite L in H. discriminate.
   - injection H as <- <-. reflexivity.
 Qed.
+(* when every thread has finished nobody is inside, the lock is free and LC_COLLATE is the initial locale *)
+Lemma all_finished_count : forall ts, forallb finished ts = true -> count_inside ts = 0.
+Proof.
+  induction ts as [|t r IH]; intros H; [reflexivity|]. cbn [forallb] in H. apply andb_prop in H. destruct H as (Ht & Hr).
+  rewrite count_inside_cons, (IH Hr). destruct t as [[|c q]|saved q]; cbn in Ht; try discriminate. reflexivity.
+Qed.
+Lemma quiescent_is_initial : forall init s ts, inv init (s, ts) -> forallb finished ts = true -> s = mkg false init.
+Proof.
+  intros init s ts H F. destruct (locked s) eqn:L.
+  - destruct H as (A & _). specialize (A L). rewrite (all_finished_count ts F) in A. discriminate.
+  - eapply free_state_is_initial; eauto.
+Qed.
 End Collation.
